@@ -1121,6 +1121,16 @@ func (c *ControlPlane) InheritDialerHealthFrom(previous *ControlPlane) bool {
 		previousGroups[group.Name] = group
 	}
 
+	// A dialer shared by several groups is restored once per group. Selection
+	// floors are therefore applied only after every group has been restored;
+	// otherwise a later group's restore puts the shared dialer back to its
+	// inherited (dead) state and undoes the floor of an earlier group.
+	type pendingFloor struct {
+		group    *outbound.DialerGroup
+		fallback outbound.ReloadSelectionFallback
+	}
+	var floors []pendingFloor
+
 	for _, group := range c.outbounds {
 		if group == nil {
 			continue
@@ -1146,7 +1156,10 @@ func (c *ControlPlane) InheritDialerHealthFrom(previous *ControlPlane) bool {
 				hasOverlap = true
 			}
 		}
-		group.EnsureReloadSelectionFloor(fallback)
+		floors = append(floors, pendingFloor{group: group, fallback: fallback})
+	}
+	for _, f := range floors {
+		f.group.EnsureReloadSelectionFloor(f.fallback)
 	}
 	return hasOverlap
 }
